@@ -679,7 +679,8 @@ def C09(infos: List[EnumInfo], ctx: dict):
                                          "%s: generated %s, source %s" % (a["name"], a["disc"], b["disc"]), where(info, D, {"variant": a["name"]})))
         # repr
         rows += 1
-        if dinfo.sem["repr"] != info.sem["repr"]:
+        own_repr = any(_norm_ws(str(o)).replace(" ", "").startswith("repr(") for o in es.disc_others)     # a pass-through repr on an enum without one is the companion's own
+        if dinfo.sem["repr"] != info.sem["repr"] and not (own_repr and not es.repr_tokens):
             out.append(Violation("C09", "same #[repr]", "C09:repr", "generated %s, source %s" % (dinfo.sem["repr"], info.sem["repr"]), where(info, D)))
         # visibility
         rows += 1
@@ -798,6 +799,16 @@ def C09(infos: List[EnumInfo], ctx: dict):
             if dd not in ddocs:
                 out.append(Violation("C09", "doc = .. appears on the generated type", "C09:doc-missing", "doc %r missing" % dd, where(info, D)))
         dvars = {v["name"]: v for v in dinfo.adt.get("variants", [])}
+        # documentation and lint / cfg attributes of a variant are copied to the discriminant variant: all of them, in order
+        src_vars = {v_["name"]: v_ for v_ in info.adt.get("variants", [])}
+        for v in es.variants:
+            copied = lambda attrs: [_norm_ws(a.get("text", "")) if a.get("path") != "doc" else ("doc:%r" % (a.get("doc"),)) for a in attrs if a.get("path") in ("doc", "cfg", "allow", "deny")]
+            want_ = copied(src_vars.get(v.name, {}).get("attrs", []))
+            have_ = copied(dvars.get(v.name, {}).get("attrs", []))
+            rows += 1
+            if want_ != have_:
+                out.append(Violation("C09", "doc / cfg / allow / deny attributes of a variant are all copied to the discriminant variant, in order", "C09:variant-attrs-not-mirrored:%s" % ("fewer" if len(have_) < len(want_) else "other"),
+                                     "%s::%s carries %s, the source variant %s" % (ge["name"], v.name, have_[:4], want_[:4]), where(info, D, {"variant": v.name})))
         for v in es.variants:
             for pt_ in v.disc_passthrough:
                 m = re.match(r"#\[strum_discriminants\((.*)\)\]$", pt_.strip(), re.S)
